@@ -5,3 +5,4 @@ from . import v2version  # noqa
 from . import vcs  # noqa
 from . import cli  # noqa
 from . import rewrite  # noqa
+from . import parse_version  # noqa
